@@ -128,12 +128,13 @@ PortTooBig(p) == DecVal(p) > 65535
 IsIPLitByte(b) == IsHex(b) \/ b \in {58, 46}
 IsPlainHostByte(b) == IsAlpha(b) \/ IsDigit(b) \/ b \in {45, 46, 95}
 
-\* authority = [ userinfo "@" ] host [ ":" port ]   (RFC 3986 3.2); result "ok" | "exotic" | "bad"
+\* authority = [ userinfo "@" ] host [ ":" port ]   (RFC 3986 3.2)
+\* result "ok" | "exotic" (validation left to the URL library) | "emptyhost" | "bad"
 AuthorityClass(a) ==
     IF Len(a) = 0 THEN "bad"
     ELSE LET at == LastIn(a, 1, Len(a), LAMBDA b : b = 64)
              hp == DropN(a, at)
-         IN IF Len(hp) = 0 THEN "bad"
+         IN IF Len(hp) = 0 THEN "emptyhost"
             ELSE IF hp[1] = 91 THEN      \* IP-literal "[" ... "]"
                 LET rb == IndexOfByte(hp, 93)
                     inside == Slice(hp, 2, rb - 1)
@@ -148,8 +149,9 @@ AuthorityClass(a) ==
                 LET c == LastIn(hp, 1, Len(hp), LAMBDA b : b = COLON)
                     host == IF c = 0 THEN hp ELSE Slice(hp, 1, c - 1)
                     port == IF c = 0 THEN <<>> ELSE DropN(hp, c)
-                IN IF Len(host) = 0 \/ ~AllB(host, IsRegNameByte) THEN "bad"
+                IN IF ~AllB(host, IsRegNameByte) THEN "bad"
                    ELSE IF c # 0 /\ ~AllB(port, IsDigit) THEN "bad"
+                   ELSE IF Len(host) = 0 THEN "emptyhost"
                    ELSE IF at # 0 \/ ~AllB(host, IsPlainHostByte) \/ HasXn(host)
                            \/ (c # 0 /\ (Len(port) = 0 \/ Len(port) > 5 \/ PortTooBig(port)))
                         THEN "exotic" ELSE "ok"
@@ -207,9 +209,12 @@ ParseRequestLine(line) ==
                             LET k == AbsFormClass(target)
                             IN CASE k = "ok" -> <<>>
                                  [] k = "exotic" -> <<Alt("AbsTargetExotic")>>
-                                 [] k = "bad" -> <<Dev("AbsTargetAuthorityAccepted")>>
+                                 \* RFC 9110 4.2.1: a recipient MUST reject an http(s) URI with an empty host
+                                 [] k = "emptyhost" -> <<Dev("AbsTargetEmptyHostAccepted")>>
+                                 [] k = "bad" -> <<Alt("BADAUTH")>>
                                  [] OTHER -> <<Alt("NOFORM")>>
         IN IF form = <<Alt("NOFORM")>> THEN bad("TargetForm")       \* authority/asterisk form with the wrong method, junk
+           ELSE IF form = <<Alt("BADAUTH")>> THEN bad("TargetAuthority")   \* unbalanced brackets, non-numeric port ...
            ELSE [ok |-> TRUE, why |-> "", method |-> method, target |-> target, vmaj |-> vmaj, vmin |-> vmin,
                  soft |-> sCase \o sVer \o sObs \o sCtl \o form]
 
